@@ -1,24 +1,38 @@
-(* C52 -- line-protocol driver around step_fn / init extracted from C52Model.v.
-   stdin:  T <name> <n checks> <p0> <p1> ...   (pK = 1 if check K passes)   then   S i | A i | F i   then END
-   stdout: ACCEPT <name> appended=<order, comma separated> | REJECT <name> at=<i> line=<text> *)
+(* C52 -- line-protocol driver around rstep_fn / rinit / sequential_results extracted from C52Model.v / C52Spec.v.
+   stdin:  T <name> <n checks> <p0> <p1> ...   (pK = 1 if check K passes: ground truth)
+           D <i> <req_ok> <discard> <cmds> <tests>   definition of check i (ground truth; strings of 0/1, "-" = none)
+           S i | A i | F i <verdict> <cmds> <tests> <skipped>   events; F carries what the REAL log recorded for check i
+           END
+   stdout: ACCEPT <name> appended=<order> finished=<n> recorded=<i:v:cmds:tests:skipped;...> seq=<same, of sequential_results>
+         | REJECT <name> at=<i> line=<text> why=... *)
 open C52_model
 
 let rec nat_of_int n = if n <= 0 then O else S (nat_of_int (n - 1))
 let rec int_of_nat = function O -> 0 | S m -> 1 + int_of_nat m
+let bools_of_string s = if s = "-" then [] else List.init (String.length s) (fun k -> s.[k] = '1')
+let string_of_bools l = if l = [] then "-" else String.concat "" (List.map (fun b -> if b then "1" else "0") l)
+let show_rec l =
+  String.concat ";" (List.map (fun (i, r) ->
+    Printf.sprintf "%d:%s:%s:%s:%d" (int_of_nat i) (if r.r_verdict then "1" else "0") (string_of_bools r.r_cmds)
+      (string_of_bools r.r_tests) (int_of_nat r.r_skipped)) l)
 let event_of_line l =
   match String.split_on_char ' ' (String.trim l) with
-  | ["S"; i] -> Some (Start (nat_of_int (int_of_string i)))
-  | ["A"; i] -> Some (Append (nat_of_int (int_of_string i)))
-  | ["F"; i] -> Some (Finish (nat_of_int (int_of_string i)))
+  | ["S"; i] -> Some (RStart (nat_of_int (int_of_string i)))
+  | ["A"; i] -> Some (RAppend (nat_of_int (int_of_string i)))
+  | ["F"; i; v; cm; ts; sk] when (v = "0" || v = "1") ->
+      Some (RFinish (nat_of_int (int_of_string i),
+                     { r_verdict = (v = "1"); r_cmds = bools_of_string cm; r_tests = bools_of_string ts;
+                       r_skipped = nat_of_int (int_of_string sk) }))
   | _ -> None
 
 let () =
-  let name = ref "" and cs = ref [] and st = ref (Some init) and idx = ref 0 and verdict = ref "" in
+  let name = ref "" and cs = ref [] and ds = ref [] and st = ref (Some rinit) and idx = ref 0 and verdict = ref "" in
   let finish () =
     if !name <> "" then
       (match !verdict, !st with
-       | "", Some s -> Printf.printf "ACCEPT %s appended=%s finished=%d\n" !name
-                         (String.concat "," (List.map (fun x -> string_of_int (int_of_nat x)) s.appended)) (List.length s.finished)
+       | "", Some s -> Printf.printf "ACCEPT %s appended=%s finished=%d recorded=%s seq=%s\n" !name
+                         (String.concat "," (List.map (fun x -> string_of_int (int_of_nat x)) s.core.appended))
+                         (List.length s.core.finished) (show_rec s.recorded) (show_rec (sequential_results !ds))
        | v, _ -> Printf.printf "REJECT %s %s\n" !name v) in
   (try
     while true do
@@ -26,13 +40,15 @@ let () =
       match String.split_on_char ' ' (String.trim l) with
       | "T" :: nm :: _ :: ps ->
           name := nm; cs := List.mapi (fun i p -> { block = [nat_of_int i]; passed = (p = "1") }) ps;
-          st := Some init; idx := 0; verdict := ""
+          ds := []; st := Some rinit; idx := 0; verdict := ""
+      | ["D"; _; rq; dc; cm; ts] ->
+          ds := !ds @ [{ req_ok = (rq = "1"); discard = (dc = "1"); cmd_ok = bools_of_string cm; test_ok = bools_of_string ts }]
       | ["END"] -> finish (); name := ""
       | _ ->
           (if !verdict = "" then
              match !st, (try event_of_line l with _ -> None) with
              | Some s, Some e ->
-                 (match step_fn !cs s e with
+                 (match rstep_fn !cs !ds s e with
                   | Some s1 -> st := Some s1
                   | None -> verdict := Printf.sprintf "at=%d line=%s why=step-not-enabled" !idx (String.trim l))
              | _, None -> verdict := Printf.sprintf "at=%d line=%s why=not-an-event" !idx (String.trim l)
